@@ -6,7 +6,7 @@ DRIVERS = [
     dict(name="life_verif32", src="life.cpp", defines=["LIFE_VERIF"], ops=["life32"]),
     dict(name="life_noop", src="life.cpp", defines=["LIFE_NOOP"], ops=["lifen"]),
 ]
-ALPHA14 = ["c:0:1", "c:0:0", "d:0", "m:0", "f:0", "r:0:0:1", "u:0", "l:0:5", "il:0:5", "lb:0:5", "lb:0:6", "ilb:0:6", "lb:1:5", "fa:0:5", "fa:0:6", "x:0:64", "gs:0:0",
+ALPHA14 = ["c:0:1", "c:0:0", "d:0", "m:0", "f:0", "fo:0", "fv:0:1", "fv:0:0", "fv:1:0", "r:0:0:1", "u:0", "l:0:5", "il:0:5", "lb:0:5", "lb:0:6", "ilb:0:6", "lb:1:5", "fa:0:5", "fa:0:6", "x:0:64", "gs:0:0",
            "c:1:1", "d:1", "x:1:4096", "r:1:1:1", "r:1:0:1", "m:1", "c:2:1", "d:2", "x:2:0", "q:0"]
 
 
@@ -39,6 +39,6 @@ def NONTRIVIAL(case, model, cls):
 
 RULE = ("histories over 3 sandbox objects of verif32 (create with injected failure, destroy, malloc, free, register, unregister, by-name lookup and internal lookup (back end asked or "
         "served from cache), guest call of a raw entry-point slot, example-based pointer translation into each object's region): exhaustive to depth 3 (quick)/4 (thorough) over an alphabet "
-        "of 23 operations, random to length 15; every seventh history also on rlbox_noop_sandbox. Every outcome of every step is compared; an abort ends the history.")
+        "of 27 operations, random to length 15; every seventh history also on rlbox_noop_sandbox. Every outcome of every step is compared; an abort ends the history.")
 TRUSTED = ["model coq/World.v hand-written; tied by differential correspondence of whole histories"]
 ASSUMPTIONS = ["abort is terminal (the history ends at the first failed dynamic_check)", "single thread (C18 covers threads)"]
